@@ -230,6 +230,52 @@ func runC15(c *core.Ctx) {
 		}
 		c15Judge(cs, xr)
 	})
+	// (2b) large blocks: block lengths around 2^14 words (where 4*(length+1) crosses 65536) and up to the maximum
+	c.Section("large-blocks", c.N(160, 3000), func(cs *core.Case) {
+		r := cs.R
+		xr := &rtcp.ExtendedReport{SenderSSRC: r.B32()}
+		words := r.Pick(16381, 16382, 16383, 16384, 16385, 32767, 32768, 49151, 65533) // block length field
+		var big rtcp.ReportBlock
+		switch cs.Idx % 4 {
+		case 0: // RLE: length = 2 + chunks/2
+			cs2 := make([]rtcp.Chunk, 2*(words-2))
+			for i := range cs2 {
+				cs2[i] = rtcp.Chunk(r.U16())
+			}
+			if r.Bool() {
+				big = &rtcp.LossRLEReportBlock{T: uint8(r.Intn(16)), SSRC: r.U32(), BeginSeq: r.U16(), EndSeq: r.U16(), Chunks: cs2}
+			} else {
+				big = &rtcp.DuplicateRLEReportBlock{T: uint8(r.Intn(16)), SSRC: r.U32(), BeginSeq: r.U16(), EndSeq: r.U16(), Chunks: cs2}
+			}
+		case 1: // receipt times: length = 2 + n
+			ts := make([]uint32, words-2)
+			for i := range ts {
+				ts[i] = r.U32()
+			}
+			big = &rtcp.PacketReceiptTimesReportBlock{T: uint8(r.Intn(16)), SSRC: r.U32(), ReceiptTime: ts}
+		case 2: // DLRR: length = 3n
+			n := words / 3
+			rs := make([]rtcp.DLRRReport, n)
+			for i := range rs {
+				rs[i] = rtcp.DLRRReport{SSRC: r.U32(), LastRR: r.U32(), DLRR: r.U32()}
+			}
+			big = &rtcp.DLRRReportBlock{Reports: rs}
+		default: // unknown: length = len/4
+			big = &rtcp.UnknownReportBlock{XRHeader: rtcp.XRHeader{BlockType: rtcp.BlockTypeType(8 + r.Intn(200)), TypeSpecific: rtcp.TypeSpecificField(r.U8())}, Bytes: r.Bytes(4 * words)}
+		}
+		if words < 60000 {
+			for i := r.Intn(3); i > 0; i-- {
+				xr.Reports = append(xr.Reports, gen.XRBlock(r, gen.XRKind(r.Intn(int(nk))), false))
+			}
+		}
+		xr.Reports = append(xr.Reports, big)
+		if words < 60000 {
+			for i := r.Intn(3); i > 0; i-- {
+				xr.Reports = append(xr.Reports, gen.XRBlock(r, gen.XRKind(r.Intn(int(nk))), false))
+			}
+		}
+		c15Judge(cs, xr)
+	})
 	// (3) all T values and all flag/ToH combinations
 	c.Exhaustive("all 16 T values x 3 block types; all 32 L/D/J/ToH combinations", 16*3+32)
 	c.Once("type-specific-all", func(cs *core.Case) {
